@@ -22,6 +22,7 @@ package ackhandler
 //        S_after <= 3*R + size of that single datagram.
 
 import (
+	"encoding/json"
 	"fmt"
 	"time"
 
@@ -266,11 +267,15 @@ func (in *c14SphInst) Key() string {
 		fmt.Sprintf("|R=%d S=%d v=%v", in.R, in.S, in.validated)
 }
 
-func c14SphPart(name string, quick, thorough c14Cfg, dq, dt int) explore.Part {
-	return explore.BFSPart(name, func(e explore.Env) explore.BFSSpec {
-		cfg, d := quick, dq
+// c14SphPart builds one BFS part. In the thorough tier the deadline of the process is shared
+// out between the parts (weight / sum of the weights of the parts still to run; unused time
+// rolls over), so that a loaded machine shortens every search a little instead of starving
+// the last one. The budget only bounds how deep the BFS gets; no verdict depends on it.
+func c14SphPart(name string, cfg c14Cfg, dq, dt int, weight, weightLeft float64) explore.Part {
+	mk := func(e explore.Env) explore.BFSSpec {
+		d := dq
 		if e.Thorough() {
-			cfg, d = thorough, dt
+			d = dt
 		}
 		return explore.BFSSpec{
 			New:              func() explore.Instance { return newC14SphInst(cfg) },
@@ -279,5 +284,17 @@ func c14SphPart(name string, quick, thorough c14Cfg, dq, dt int) explore.Part {
 			Rule: fmt.Sprintf("BFS to depth %d over the real server-side sentPacketHandler (no token); alphabet: ReceivedBytes%v, ReceivedPacket(Initial|Handshake%s) with DropPackets(Initial) before the first Handshake packet, ACK of the Initial space (largest only | all, %v), OnLossDetectionTimeout at the alarm, clock steps %v ms, and - only as SendMode allows, like connection.go - packets of %v bytes at Initial/Handshake%s level (ack-eliciting or 40-byte ACK-only), PTO probes after QueueProbePacket, coalesced Initial+Handshake datagram (%v); state = canon(handler, times relative to now) + ledger",
 				d, cfg.rbSizes, map[bool]string{true: "|0-RTT", false: ""}[cfg.zeroRTT], cfg.acks, cfg.ticksMS, cfg.sendSizes, map[bool]string{true: "/1-RTT", false: ""}[cfg.oneRTT], cfg.coalesced),
 		}
-	})
+	}
+	return explore.Part{
+		Name: name,
+		Run: func(e explore.Env) *explore.Report {
+			if e.Thorough() && !e.Deadline.IsZero() {
+				if left := time.Until(e.Deadline); left > 0 {
+					e.Deadline = time.Now().Add(time.Duration(float64(left) * weight / weightLeft))
+				}
+			}
+			return explore.BFS(e, mk(e))
+		},
+		Replay: func(e explore.Env, raw json.RawMessage) *explore.Violation { return explore.ReplayBFS(mk(e), raw) },
+	}
 }
